@@ -77,7 +77,9 @@ func HistoryFamily() []Prog {
 	// the same class spelled differently, classes that differ only by a flag (and print identically once
 	// simplified: \d and (?i)\d are both [0-9]), nested classes - every expression under every flag
 	for _, expr := range []string{`[a-c]`, `[abc]`, `[^a-c]`, `[a-c]+`, `.`, `\d`, `[0-9]`, `\D`, `\w\W`, `[[:alpha:]]`, `[[:^alpha:]]`, `[0-9a-fA-F]{3}`, `[0-9a-f]{3}`, `[A-Za-z]`, `[a-z]`,
-		`\pL`, `\PL`, `\p{Lu}`, `\p{Greek}`, `a|b|c`, `[a-c][a-c]`, `a+`, `^a$`, `#[0-9a-fA-F]{2}`, `0x[0-9a-f]+`} {
+		`\pL`, `\PL`, `\p{Lu}`, `\p{Greek}`, `a|b|c`, `[a-c][a-c]`, `a+`, `^a$`, `#[0-9a-fA-F]{2}`, `0x[0-9a-f]+`,
+		// classes whose printed forms are long and share a long prefix (a class and the same class with one more range at the end)
+		`[\p{L}\x{1F300}-\x{1FAFF}]{6}`, `[\p{L}\x{1F300}-\x{1FAFF}\x{20000}-\x{2A6DF}]{6}`, `[\p{Han}]{3}`, `[\p{Han}0-9]{3}`, `[\p{Lu}\p{Nd}]{4}`, `[\p{Lu}\p{Nd}_]{4}`} {
 		for _, fl := range []string{"", "(?i)", "(?s)", "(?U)", "(?m)"} {
 			expr := fl + expr
 			ps = append(ps, one(fmt.Sprintf("StringMatching(%q)", expr), "", func() *rapid.Generator[string] { return rapid.StringMatching(expr) }, nil))
